@@ -185,6 +185,12 @@ func (p *LogPredicate) Validate() error {
 	if err := p.ValuePredicate.Validate(); err != nil {
 		return err
 	}
+	// A topic is always one whole word, so a BytesEq argument of any other size can never be
+	// turned into a topic filter (see ToFilterQuery).
+	if p.LogValueRef.IsTopic() && p.ValuePredicate.Op == BytesEq && len(p.ValuePredicate.ByteArgs[0]) != Word {
+		return fmt.Errorf("BytesEq argument for topic %d must be %d bytes, got %d",
+			p.LogValueRef.Offset, Word, len(p.ValuePredicate.ByteArgs[0]))
+	}
 	return nil
 }
 
